@@ -605,6 +605,57 @@ def run(ctx: Any, prog: Program) -> None:
             ctx.check('C17.N11', not renamed, ins, guards[0] if guards else ren[0], f'collapse_one renames a nested instance\'s replace value that starts with {ch!r} (guard `{" and ".join(U(g.test)[:60] for g in guards)}`): '
                       f'`{ch} 0 0`-like numbers and vectors become `<prefix>-{ch} 0 0`, and the nested instance substitutes that text into positions and angles', func='collapse_one', text=f'value starting with {ch!r} is left alone')
 
+    # ---- N12: the face-id map handed over to be filled is told from "no map" by identity -----------------------------------------------------
+    # collapse_one passes `inst.face_ids` - empty until the first brush has been copied - as side_mapping to every copy() and reads it back to
+    # remap side lists.  A copy method that tests the parameter's truth value (`if not side_mapping:`) swaps the still-empty dict for the
+    # discard-all default: in a template without world brushes every face id of the brush entities is lost.
+    ctx.rule('C17.N12', 'copy methods never test the truth value of their side_mapping parameter', floor=3)
+    n12 = 0
+    for q12, fl12 in vm17.all_funcs().items():
+        for f12 in fl12:
+            if 'side_mapping' not in {a.arg for a in f12.args.args + f12.args.kwonlyargs}:
+                continue
+            n12 += 1
+            truthy = []
+            for x in walk_no_nested(f12):
+                if isinstance(x, (ast.If, ast.IfExp, ast.While)) and (dotted(x.test) == 'side_mapping' or (isinstance(x.test, ast.UnaryOp) and isinstance(x.test.op, ast.Not) and dotted(x.test.operand) == 'side_mapping')):
+                    truthy.append(x)
+                if isinstance(x, ast.BoolOp) and any(dotted(v) == 'side_mapping' for v in x.values[:-1] if True):
+                    truthy.append(x)
+                if isinstance(x, ast.UnaryOp) and isinstance(x.op, ast.Not) and dotted(x.operand) == 'side_mapping' and not any(x is getattr(t_, 'test', None) for t_ in walk_no_nested(f12)):
+                    truthy.append(x)
+            ctx.check('C17.N12', not truthy, vm17, truthy[0] if truthy else f12, f'{q12} decides on the truth value of side_mapping (`{U(truthy[0])[:50] if truthy else ""}`): the map collapse_one hands over is empty until something '
+                      'has been copied into it, so it is replaced by the discarding default and the old -> new face ids of this copy are lost (overlay / cubemap side lists come out blank)', func=q12,
+                      text=f'{q12}: side_mapping compared with None only')
+    ctx.shape('C17.N12', n12 >= 3, vm17, vm17.tree, f'{n12} functions of vmf.py take a side_mapping parameter (Entity.copy, Solid.copy, Side.copy confirmed by hand)', text='side_mapping parameters')
+    # ---- N4 (every name is renamed): apart from blank, @global and !special names - and the NONE style - no name comes back unchanged ------------
+    fn_n4 = ins.func('Instance.fixup_name')
+    prm_n4 = fn_n4.args.args[1].arg
+    def _allowed_guard(t: ast.AST) -> bool:
+        parts = t.values if isinstance(t, ast.BoolOp) else [t]
+        for p_ in parts:
+            if isinstance(p_, ast.UnaryOp) and isinstance(p_.op, ast.Not) and dotted(p_.operand) == prm_n4:
+                continue
+            if isinstance(p_, ast.Call) and isinstance(p_.func, ast.Attribute) and p_.func.attr == 'startswith' and dotted(p_.func.value) == prm_n4 and p_.args and \
+                    all(isinstance(e, ast.Constant) for e in (p_.args[0].elts if isinstance(p_.args[0], ast.Tuple) else [p_.args[0]])):
+                continue
+            if isinstance(p_, ast.Compare) and len(p_.ops) == 1 and isinstance(p_.ops[0], (ast.Is, ast.Eq)) and (dotted(p_.comparators[0]) or '').endswith('FixupStyle.NONE'):
+                continue
+            return False
+        return True
+    for r_ in [x for x in walk_no_nested(fn_n4) if isinstance(x, ast.Return) and x.value is not None]:
+        alts_ = [r_.value.body, r_.value.orelse] if isinstance(r_.value, ast.IfExp) else [r_.value]
+        if not any(dotted(a_) == prm_n4 for a_ in alts_):
+            continue
+        if isinstance(r_.value, ast.IfExp):
+            ok_ = False
+            cond_ = U(r_.value.test)
+        else:
+            guards_ = [a for a in _anc17(ins, r_, fn_n4) if isinstance(a, ast.If)]
+            ok_ = bool(guards_) and all(_allowed_guard(g.test) for g in guards_)
+            cond_ = ' and '.join(U(g.test)[:40] for g in guards_)
+        ctx.check('C17.N4', ok_, ins, r_, f'fixup_name hands the name back unchanged when `{cond_[:70]}`: only blank, @global and !special names (and the NONE style) are exempt from the naming style - a local name that '
+                  'happens to carry the instance name already ("lift-door" inside "lift") then collides with the renamed "door"', func='Instance.fixup_name', text=f'unchanged name only for exempt names: `{cond_[:40]}`')
     # ---- N7: keyvalues are fixed up only after every entity (and so every face) has been copied -------------------------------------------
     # side lists (`sides`) are remapped through inst.face_ids, which the copies fill: the collection the fix-up loop walks has to be complete
     # before the loop starts.  A generator that copies on demand interleaves the two, and an overlay placed before the brush it refers to
@@ -931,6 +982,8 @@ def n6_substitute(ctx: Any, vm: Any) -> None:
 
 
 MUTANTS = [
+    {'id': 'entity_copy_side_mapping_by_truth', 'file': 'vmf.py', 'find': "        new_solids = [\n            solid.copy(vmf_file=vmf_file, side_mapping=side_mapping)", 'replace': "        side_mapping = side_mapping or EmptyMapping\n        new_solids = [\n            solid.copy(vmf_file=vmf_file, side_mapping=side_mapping)", 'expect': 'C17.N12', 'note': 'round 12'},
+    {'id': 'fixup_name_skips_prefixed_names', 'file': 'instancing.py', 'find': "            return f'{self.name}-{name}'", 'replace': "            return name if name.startswith(self.name + '-') else f'{self.name}-{name}'", 'expect': 'C17.N4', 'note': 'round 12'},
     {'id': 'nested_fixup_negative_numbers_renamed', 'file': 'instancing.py', 'find': "            if value and value[0] not in '@!-.0123456789':", 'replace': "            if value and value[0] not in '@!0123456789':", 'expect': 'C17.N11', 'note': 'round 11'},
     {'id': 'substitute_lookup_not_folded', 'file': 'vmf.py', 'find': "                res = fixup[varname.casefold()].value", 'replace': "                res = fixup[varname.lower()].value", 'expect': 'C17.N10', 'note': 'round 11: lower() is not casefold()'},
     {'id': 'auto_instance_names_numbered_per_pass', 'file': 'instancing.py', 'find': "            if not inst.name:\n                auto_inst_count += 1\n                inst.name = f'InstanceAuto{auto_inst_count}'\n", 'replace': "", 'extra': [{'file': 'instancing.py', 'find': "        for inst_ent in instances:\n            inst = Instance.from_entity(inst_ent)", 'replace': "        for auto_ind, unnamed_ent in enumerate([e for e in instances if not e['targetname']], start=1):\n            unnamed_ent['targetname'] = f'InstanceAuto{auto_ind}'\n        for inst_ent in instances:\n            inst = Instance.from_entity(inst_ent)"}], 'expect': 'C17.N2'},
